@@ -34,7 +34,9 @@ def step (st : DSt) (j : Json) : DSt × Json :=
         if c.isEmpty then (st, Json.mkObj [("emit", Json.arr #[]), ("buffer", String.ofList s.buffer)])
         else (st, Json.mkObj [("err", "raised:ValueError")])
       else
-      let (s', e) := poll d s c.toList
+      let (s', e) := match getNat j "fail_at" with
+        | some k => if c.isEmpty then (s, []) else feedFail d s c.toList k
+        | none => poll d s c.toList
       (DSt.text d s', Json.mkObj [("emit", Json.arr (e.map (fun r => Json.str (String.ofList r))).toArray),
                                   ("buffer", String.ofList s'.buffer)])
     | _, _ => (st, badOp "chunk")
